@@ -70,32 +70,56 @@ fn case_strategy() -> impl Strategy<Value = Case> {
             ]
         };
         let prefix = (
-            prop_oneof![4 => Just(Some(Op::Tick(1))), 1 => Just(None)],
+            prop_oneof![12 => Just(Some(Op::Tick(1))), 1 => Just(None)],
             register(),
-            prop_oneof![8 => Just(Op::EpochUp(1)), 1 => Just(Op::EpochUp(2))],
+            prop_oneof![12 => Just(Op::EpochUp(1)), 1 => Just(Op::EpochUp(2))],
             prop_oneof![6 => Just(Op::Tick(3)), 1 => Just(Op::Tick(2))],
         );
+        // a round = the registered signers (all / some) sign what the aggregator currently asks for, then it ticks
+        let round = (
+            prop_oneof![3 => Just(full), 1 => 1u16..=full],
+            prop_oneof![3 => Just(Inlet::Http), 1 => Just(Inlet::Dmq)],
+            prop_oneof![Just(1u8), Just(2u8)],
+        )
+            .prop_map(|(mask, inlet, ticks)| {
+                vec![
+                    Op::Sign(SignOp { mask, target: Target::Current(0), flavour: Flavour::Valid, inlet, label: Label::Own, source: Source::Own, idx: IdxList::Matching }),
+                    Op::Tick(ticks),
+                ]
+            });
+        let rounds = prop_oneof![
+            1 => prop::collection::vec(round.clone(), 0..=0),
+            6 => prop::collection::vec(round.clone(), 1..=1),
+            6 => prop::collection::vec(round.clone(), 2..=2),
+            2 => prop::collection::vec(round, 3..=3),
+        ];
         let block = (
-            prop_oneof![1 => Just(true), 7 => Just(false)],
+            prop_oneof![5 => Just(Some(false)), 1 => Just(Some(true)), 6 => Just(None)],
             register(),
             any::<u16>(),
-            prop::collection::vec(op_strategy_c14(n), 3..=7),
-            prop_oneof![10 => Just(Op::EpochUp(1)), 2 => Just(Op::EpochUp(2)), 1 => Just(Op::EpochUp(3))],
+            rounds,
+            prop::collection::vec((op_strategy_c14(n), any::<u16>()), 1..=2),
+            prop_oneof![24 => Just(Op::EpochUp(1)), 3 => Just(Op::EpochUp(2)), 1 => Just(Op::EpochUp(3))],
             prop_oneof![6 => Just(Op::Tick(3)), 1 => Just(Op::Tick(1))],
         )
-            .prop_map(|(regenesis, reg, at, mut items, up, tick)| {
+            .prop_map(|(regenesis, reg, at, rounds, noise, up, tick)| {
+                let mut items: Vec<Op> = rounds.into_iter().flatten().collect();
                 if let Some(r) = reg {
                     let pos = vcore::pick_index(at, items.len() + 1);
                     items.insert(pos, r);
                 }
-                if regenesis {
-                    items.insert(0, Op::ReGenesis);
+                for (op, at) in noise {
+                    let pos = vcore::pick_index(at, items.len() + 1);
+                    items.insert(pos, op);
+                }
+                if let Some(force) = regenesis {
+                    items.insert(0, Op::ReGenesis { force });
                 }
                 items.push(up);
                 items.push(tick);
                 items
             });
-        (Just(cfg), prefix, prop::collection::vec(block, 2..=3)).prop_map(|(cfg, (a, b, c, d), blocks)| {
+        (Just(cfg), prefix, prop::collection::vec(block, 2..=4)).prop_map(|(cfg, (a, b, c, d), blocks)| {
             let mut ops: Vec<Op> = a.into_iter().collect();
             ops.extend(b);
             ops.extend([c, d]);
@@ -141,7 +165,7 @@ fn scripted() -> Vec<Case> {
             ops.extend([Op::EpochUp(1), Op::Tick(3), reg(full, 0), sign_all(n), Op::Tick(2), sign_all(n), Op::Tick(2)]);
             // skipped epoch, blocked, operator bootstraps a new genesis, chain goes on
             ops.extend([Op::EpochUp(2), Op::Tick(3), sign_all(n), Op::Tick(2), reg(full, 0), Op::EpochUp(1), Op::Tick(3)]);
-            ops.extend([Op::ReGenesis, Op::Tick(2), reg(full, 0), Op::EpochUp(1), Op::Tick(3), sign_all(n), Op::Tick(2), sign_all(n), Op::Tick(2)]);
+            ops.extend([Op::ReGenesis { force: false }, Op::Tick(2), reg(full, 0), Op::EpochUp(1), Op::Tick(3), sign_all(n), Op::Tick(2), sign_all(n), Op::Tick(2)]);
             v.push(Case { cfg, ops });
         }
     }
@@ -160,7 +184,7 @@ fn run_case_with(c: &Case, prefix: &str) -> Report {
     let rt = case_runtime();
     let rep = rt.block_on(async {
         let mut rep = Report::new();
-        let mut run = Run::boot(&c.cfg, "c14", RunOpts { certificates: true, rows: false, client_verifier: true }).await;
+        let mut run = Run::boot(&c.cfg, "c14", RunOpts { certificates: true, rows: false, client_verifier: true, signers_by_true_key: false, expect_certificate_on_honest_quorum: false }).await;
         for op in &c.ops {
             if run.violation.is_some() {
                 break;
